@@ -270,10 +270,38 @@ func checkC09(c *Ctx) {
 func (c *Ctx) withMailboxClosures(withMailbox *ssa.Function) map[*ssa.Function]string {
 	p := c.P
 	out := map[*ssa.Function]string{}
-	var lm *mbLockModel
 	fMu := p.MutexField("pkg/storage/mem", "mbox")
-	if fMu != nil && withMailbox != nil {
-		lm = c.mbLocks(withMailbox, fMu)
+	// the gates: Store.withMailbox when it exists under that name, otherwise whatever plays
+	// its role (every instance of a generic inMailbox[T], say)
+	var gates []*ssa.Function
+	if withMailbox != nil {
+		gates = []*ssa.Function{withMailbox}
+	} else if fMu != nil {
+		gates = c.memGates(fMu)
+	}
+	isGate := map[*ssa.Function]bool{}
+	lms := map[*ssa.Function]*mbLockModel{}
+	{
+		var kept []*ssa.Function
+		for _, g := range gates {
+			var lmg *mbLockModel
+			if fMu != nil {
+				lmg = c.mbLocks(g, fMu)
+			}
+			// a gate found by role must select the lock side by a parameter; one that always takes
+			// the same side (readMailbox(f) / writeMailbox(f)) is a self-locking function, below
+			if withMailbox == nil && (lmg == nil || lmg.modeIdx < 0) {
+				continue
+			}
+			kept = append(kept, g)
+			isGate[g] = true
+			lms[g] = lmg
+		}
+		gates = kept
+	}
+	var lm *mbLockModel
+	if len(gates) > 0 {
+		lm = lms[gates[0]]
 	}
 	// self-locking functions: the design in which each mailbox operation takes the mailbox
 	// lock itself (mb.Lock(); defer mb.Unlock()) — the function body from the acquisition on
@@ -281,7 +309,7 @@ func (c *Ctx) withMailboxClosures(withMailbox *ssa.Function) map[*ssa.Function]s
 	if fMu != nil {
 		ops := opsFor(fMu)
 		for _, fn := range pkgFuncs(p, "pkg/storage/mem") {
-			if fn == withMailbox || lm != nil && lm.acquirers[fn] {
+			if isGate[fn] || lm != nil && lm.acquirers[fn] {
 				continue
 			}
 			nAcq, nW := 0, 0
@@ -343,7 +371,7 @@ func (c *Ctx) withMailboxClosures(withMailbox *ssa.Function) map[*ssa.Function]s
 			})
 		}
 	}
-	if withMailbox == nil {
+	if len(gates) == 0 {
 		return out
 	}
 	merge := func(g *ssa.Function, mode string) {
@@ -375,12 +403,17 @@ func (c *Ctx) withMailboxClosures(withMailbox *ssa.Function) map[*ssa.Function]s
 		fn := fn
 		eng.EachInstr(fn, func(in ssa.Instruction) {
 			call, ok := in.(*ssa.Call)
-			if !ok || eng.StaticCallee(call.Common()) != withMailbox {
+			if !ok || !isGate[eng.StaticCallee(call.Common())] {
 				return
 			}
+			lm = lms[eng.StaticCallee(call.Common())]
 			args := call.Call.Args
 			mc, ok := args[len(args)-1].(*ssa.MakeClosure)
 			if !ok {
+				// a method expression or a plain function given as the callback ((*mbox).listing)
+				if h, _, isFn := eng.FuncValueOf(args[len(args)-1]); isFn && h != nil {
+					merge(h, modeAt(args, fn, nil))
+				}
 				return
 			}
 			cl := mc.Fn.(*ssa.Function)
@@ -833,6 +866,15 @@ func (c *Ctx) c09Shared(pm *pairModel) {
 				for _, ref := range *fa.Referrers() {
 					if s, ok := ref.(*ssa.Store); ok && s.Addr == ssa.Value(fa) {
 						w = true
+					}
+					// a field of a record the message holds by value (m.acct.el = …) is a write
+					// of that record
+					if inner, ok := ref.(*ssa.FieldAddr); ok && inner.Referrers() != nil {
+						for _, r2 := range *inner.Referrers() {
+							if s, ok := r2.(*ssa.Store); ok && s.Addr == ssa.Value(inner) {
+								w = true
+							}
+						}
 					}
 				}
 				// pre-publication: a store that dominates the map insert of the same function
@@ -1500,7 +1542,10 @@ func (c *Ctx) c09File(pm *pairModel) {
 
 func (c *Ctx) c09El(pm *pairModel) {
 	r, p := c.R, c.P
-	fEl := p.Field("pkg/storage/mem", "Message", "el")
+	fEl := memElementField(p)
+	if fEl == nil {
+		fEl = p.Field("pkg/storage/mem", "Message", "el")
+	}
 	if fEl == nil {
 		return
 	}
@@ -1819,4 +1864,99 @@ func (c *Ctx) c09Pool() {
 	if n == 0 {
 		r.Ok(rule, "no-pool", "", "the storage packages hand nothing back to a sync.Pool")
 	}
+}
+
+
+// memGates finds the mailbox lock gates of the memory store by role: top-level functions of
+// the package (each instance of a generic one counts) that acquire the mailbox lock, take a
+// function parameter whose own first parameter is the mailbox, and call it.
+func (c *Ctx) memGates(fMu *types.Var) []*ssa.Function {
+	p := c.P
+	mboxT := p.Named("pkg/storage/mem", "mbox")
+	if mboxT == nil {
+		return nil
+	}
+	ops := opsFor(fMu)
+	var out []*ssa.Function
+	for _, fn := range pkgFuncs(p, "pkg/storage/mem") {
+		if fn.Parent() != nil || len(fn.Blocks) == 0 {
+			continue
+		}
+		var cb *ssa.Parameter
+		for _, prm := range fn.Params {
+			sig, ok := prm.Type().Underlying().(*types.Signature)
+			if !ok || sig.Params().Len() == 0 {
+				continue
+			}
+			if pt, ok := sig.Params().At(0).Type().(*types.Pointer); ok && types.Identical(pt.Elem(), mboxT) {
+				cb = prm
+			}
+		}
+		if cb == nil {
+			continue
+		}
+		calls, acquires := false, false
+		eng.EachInstr(fn, func(in ssa.Instruction) {
+			if call, ok := in.(*ssa.Call); ok && call.Call.Value == ssa.Value(cb) {
+				calls = true
+			}
+			if ops.isAcq(in) {
+				acquires = true
+			}
+		})
+		if !acquires {
+			// through a sync.Locker chosen from the mailbox (l = mb / mb.RLocker(); l.Lock())
+			eng.EachInstr(fn, func(in ssa.Instruction) {
+				if call, ok := in.(*ssa.Call); ok && call.Call.IsInvoke() && call.Call.Method.Name() == "Lock" {
+					acquires = true
+				}
+			})
+		}
+		if calls && acquires {
+			out = append(out, fn)
+		}
+	}
+	sortFuncs(out)
+	return out
+}
+
+
+// memElementField: the back-reference from a memory-store message to its element in the
+// enforcer's list — the field of type *list.Element in mem.Message or in a record of the
+// package that Message holds by value.
+func memElementField(p *eng.Prog) *types.Var {
+	T := p.Named("pkg/storage/mem", "Message")
+	if T == nil {
+		return nil
+	}
+	isEl := func(t types.Type) bool {
+		pt, ok := t.(*types.Pointer)
+		if !ok {
+			return false
+		}
+		n, ok := pt.Elem().(*types.Named)
+		return ok && n.Obj().Pkg() != nil && n.Obj().Pkg().Path() == "container/list" && n.Obj().Name() == "Element"
+	}
+	var found []*types.Var
+	var scan func(n *types.Named, depth int)
+	scan = func(n *types.Named, depth int) {
+		st, ok := n.Underlying().(*types.Struct)
+		if !ok || depth > 2 {
+			return
+		}
+		for i := 0; i < st.NumFields(); i++ {
+			f := st.Field(i)
+			if isEl(f.Type()) {
+				found = append(found, f)
+			}
+			if inner, ok := f.Type().(*types.Named); ok && inner.Obj().Pkg() == T.Obj().Pkg() {
+				scan(inner, depth+1)
+			}
+		}
+	}
+	scan(T, 0)
+	if len(found) == 1 {
+		return found[0]
+	}
+	return nil
 }
